@@ -3,7 +3,7 @@
 (1) controls/*.diff - candidate repairs of the known findings: the affected check must exit 0 and print NO KNOWN-FINDING line for the
     repaired mechanism (and every other quick check must stay silent);
 (2) controls/refactor-*.diff - behaviour-preserving refactorings written by independent sub-agents: every quick check must exit 0.
-Scratch copies live outside /repo and /verif and are removed.   usage: positive_controls.py [--all-checks] [name-substring ...]"""
+Scratch copies live outside /repo and /verif and are removed.   usage: positive_controls.py [--all-checks] [--checks=Cxx,Cyy (nothing stored)] [name-substring ...]"""
 import glob
 import json
 import os
@@ -19,6 +19,7 @@ EXPECT_GONE = {'F1-F2-F3-F6': ('C03', ['resident-attach-unlisted', 'remove-agent
 RELATED = {'F1-F2-F3-F6': ['C03', 'C04', 'C08', 'C13', 'C17', 'C07', 'C20', 'C12'], 'F4': ['C11', 'C09'], 'F5': ['C12', 'C08'],
            'F7': ['C15', 'C07', 'C06']}
 ALL = [f'C{i:02d}' for i in range(1, 21)]
+ONLY_CHECKS = next((a.split('=', 1)[1].split(',') for a in sys.argv[1:] if a.startswith('--checks=')), None)     # results are then NOT stored
 
 
 def one(patch, name, all_checks):
@@ -34,6 +35,8 @@ def one(patch, name, all_checks):
                            text=True, timeout=600, env=dict(os.environ, PYTHONPATH=root))
         key = next((k for k in EXPECT_GONE if name.startswith(k)), None)
         checks = ALL if (all_checks or key is None) else RELATED[key]
+        if ONLY_CHECKS:
+            checks = ONLY_CHECKS
         res = {'control': name, 'repo_tests': t.stdout.strip().splitlines()[-1] if t.stdout.strip() else '', 'checks': {}}
         for p in checks:
             c = subprocess.run([os.path.join(HERE, 'check'), p, '--tier', 'quick'], capture_output=True, text=True, timeout=3000,
@@ -71,6 +74,8 @@ def main():
         todo.append((patch, name))
     with concurrent.futures.ThreadPoolExecutor(max_workers=jobs) as ex:
         results = list(ex.map(lambda pn: one(pn[0], pn[1], all_checks), todo))
+    if ONLY_CHECKS:
+        return 0 if all(r.get('ok') for r in results) else 1
     if args:       # a partial run is merged into the stored results instead of replacing them
         try:
             old = json.load(open(os.path.join(HERE, 'evidence', 'positive_controls.json')))
